@@ -59,7 +59,8 @@ FirstBad(list) == LET bad == {i \in DOMAIN list : list[i][2] # {}}
 
 JudgeFilt(t) ==
     LET n == t.n IN
-    IF ~(t.rl >= 1 /\ t.rh >= 1 /\ t.fl \in 0..16 /\ t.fh \in 0..16) THEN V(FALSE, "malformed_request", <<>>)
+    IF ~(t.rl >= 1 /\ t.rh >= 1 /\ t.fl \in 0..16 /\ t.fh \in 0..16 /\ t.form \in {"c", "f", "strided", "ro"} /\ t.hist \in BOOLEAN)
+        THEN V(FALSE, "malformed_request", <<>>)
     ELSE IF ~t.real \/ ~(DimsOK(t.lp, n) /\ DimsOK(t.hp, n) /\ DimsOK(t.lp2, n) /\ DimsOK(t.bp, n))
         THEN V(FALSE, "C12_RealValuedSameShape", <<>>)
     ELSE IF t.imax > Tol THEN V(FALSE, "C12_RealValuedSameShape", <<>>)
@@ -102,7 +103,7 @@ JudgeRes(t) ==
 \* linear (F(3a) = 3 F(a)), low-pass + high-pass restores the map, and the gains are those of the float64 map.
 \* t.runs[i] = [dt, real, lin, comp, dev] with residuals relative to max|a|, x 1e6
 JudgeDtype(t) ==
-    LET bad(r) == LET tol == IF r.dt = "float32" THEN F32Tol ELSE Tol
+    LET bad(r) == LET tol == IF r.dt \in {"int16", "int32", "float64", "bool"} THEN Tol ELSE F32Tol     \* single precision
                   IN  IF ~r.real THEN "C12_RealValuedSameShape"
                       ELSE IF r.lin > tol THEN "C12_LinearDiagonal"
                       ELSE IF r.comp > tol THEN "C12_HighpassIsComplement"
